@@ -14,6 +14,7 @@ import (
 	"math/big"
 	"reflect"
 	"strings"
+	"sync"
 )
 
 // AttributeName converts an Object to a string, raising a TypeError
@@ -413,6 +414,36 @@ func Repr(self Object) (Object, error) {
 		return res, err
 	}
 	return String(fmt.Sprintf("<%s instance at %p>", self.Type().Name, self)), nil
+}
+
+// The lists and dicts whose repr is being made, by identity
+var reprActive sync.Map
+
+// reprID returns the identity of a list or dict
+func reprID(obj Object) interface{} {
+	if d, ok := obj.(StringDict); ok {
+		return reflect.ValueOf(d).Pointer()
+	}
+	return obj
+}
+
+// reprEnter notes that the repr of the list or dict obj is being
+// made.  It returns false if it already was: obj contains itself and
+// the caller writes "[...]" or "{...}" for it instead of recursing
+// for ever.  Otherwise the caller must call reprLeave(obj) when done.
+//
+// This is Py_ReprEnter of CPython, which keeps the set per thread.
+// There is no per goroutine storage so the set is shared: when two
+// goroutines make the repr of the same object at the same moment one
+// of them can see "[...]" for it.
+func reprEnter(obj Object) bool {
+	_, active := reprActive.LoadOrStore(reprID(obj), nil)
+	return !active
+}
+
+// reprLeave undoes reprEnter
+func reprLeave(obj Object) {
+	reprActive.Delete(reprID(obj))
 }
 
 // DebugRepr - see Repr but returns the repr or error as a string
